@@ -59,6 +59,31 @@ def strategy(tier):
     )
 
 
+def exhaustive(tier):
+    yield ("deep chain of nested prefix keys (as deep as set() can build): traverse / traverse_from at every depth",
+           iter([{"deep": 0}, {"deep": 1}]))
+
+
+def _run_deep(case, info):
+    from ..deepchain import build_chain
+
+    t, model, keys = build_chain(fan=bool(case["deep"]))
+    ref = RefTrie(model)
+    model_nibs = [nibbles_of(k) for k in model]
+    root = impl("root_node", lambda: t.root_node)
+    for k in keys[::13] + keys[-2:]:
+        for path in (nibbles_of(k), nibbles_of(k)[:-1], nibbles_of(k) + (3,)):
+            loc = ref.locate(path)
+            got = impl("traverse-only-partial-errors", t.traverse, path, allowed=(TraversedPartialPath,))
+            _check_outcome("traverse", got, loc, path, model_nibs, info)
+            got2 = impl("traverse_from-only-partial-errors", t.traverse_from, root, path, allowed=(TraversedPartialPath,))
+            _check_outcome("traverse_from(@())", got2, loc, path, model_nibs, info)
+    info.count("deep_chain_levels", len(keys))
+    info.label("deep-chain")
+    info.nontrivial = len(keys) >= 100
+    return info
+
+
 def _tt(x):
     return tuple(int(i) for i in x)
 
@@ -174,6 +199,8 @@ def run_case(case):
     root_hash was pointed back at an earlier root.
     """
     info = Info()
+    if "deep" in case:
+        return _run_deep(case, info)
     db = FaultDB()
     t = impl("construct", HexaryTrie, db)
     model = {}
